@@ -373,4 +373,18 @@ theorem discoverLoop_total {d : Dropins} (hd : ∀ k, AList.lookup d k ≠ some 
     · have hc' : candidate e = false := by simpa using hc
       simp [hc', hfs]
 
+/-! ### index order -/
+
+theorem pairwise_sortedByIdx {l : List Found} (h : l.Pairwise fun a b => idxVal a.idx ≤ idxVal b.idx) :
+    sortedByIdx l = true := by
+  induction l with
+  | nil => rfl
+  | cons a rest ih =>
+    cases rest with
+    | nil => rfl
+    | cons b rest' =>
+      rw [List.pairwise_cons] at h
+      simp only [sortedByIdx, Bool.and_eq_true, decide_eq_true_eq]
+      exact ⟨h.1 b (by simp), ih h.2⟩
+
 end Nri.Launch
